@@ -20,6 +20,7 @@ import (
 func init() {
 	executors["time"] = execTime
 	scenarios["time"] = genTime
+	scenarios["flood"] = genFlood
 }
 
 const timeAllowance = 250 * time.Millisecond
@@ -31,6 +32,8 @@ type udpBMC struct {
 	fault string // "" = behave
 	after int    // datagrams still to be answered properly before the fault sets in
 	T     time.Duration
+	D     time.Duration // the caller's deadline of the op (fault holeflood: when the datagram stream starts)
+	flood bool          // the stream has been started
 	dev   *c14Device
 	done  chan struct{}
 }
@@ -105,6 +108,22 @@ func (u *udpBMC) serve() {
 		case "", "none":
 			r = u.sim.handle(p)
 		case "blackhole":
+		case "holeflood":
+			// silent while the first call lasts (its reply is MISSED); from shortly after that call's deadline on, a datagram of no
+			// meaning every 10 ms for seven seconds, whatever is asked: the next call on the connection meets a peer that never
+			// stops talking (seed C05-B15: a drain loop in the transport that only ends when the socket falls silent)
+			if !u.flood {
+				u.flood = true
+				go func(a *net.UDPAddr, after time.Duration) {
+					time.Sleep(after)
+					junk := []byte{6, 0, 0xff, 7, 9, 9, 9, 9, 9, 9}
+					for end := time.Now().Add(7 * time.Second); time.Now().Before(end); time.Sleep(10 * time.Millisecond) {
+						if _, err := u.conn.WriteToUDP(junk, a); err != nil {
+							return
+						}
+					}
+				}(addr, u.D+40*time.Millisecond)
+			}
 		case "late":
 			r = u.sim.handle(p)
 			delay = T + 60*time.Millisecond
@@ -217,6 +236,9 @@ func doTime(a []string) (string, string) {
 			return "handshake-failed", ""
 		}
 	}
+	u.mu.Lock()
+	u.D = D
+	u.mu.Unlock()
 	u.arm(fault, T)
 	// one call under the fault; with a fifth argument "again" the SAME call is then made a second time on the same
 	// connection / session while the fault persists (a failed call must not make the next one report success)
@@ -348,6 +370,28 @@ func genTime(g *genCtx) {
 			sem <- struct{}{}
 			execTime(op.Args)
 			<-sem
+		}(op)
+	}
+	wg.Wait()
+	for _, op := range ops {
+		g.emit(op)
+	}
+}
+
+// flood: a call whose reply is missed, then the same call again while the BMC sends a meaningless datagram every 10 ms: both
+// return by their deadlines (received bytes cannot keep a call alive: C05 / C13)
+func genFlood(g *genCtx) {
+	var ops []Op
+	for _, c := range []string{"sl", "cmd", "hs", "close"} {
+		ops = append(ops, Op{Class: 'P', NonTrivial: true, Kind: "time", Args: []string{c, "60", "150", "holeflood", "again"}})
+		ops = append(ops, Op{Class: 'P', NonTrivial: true, Kind: "time", Args: []string{c, "100", "300", "holeflood", "again"}})
+	}
+	var wg sync.WaitGroup
+	for _, op := range ops {
+		wg.Add(1)
+		go func(op Op) {
+			defer wg.Done()
+			execTime(op.Args)
 		}(op)
 	}
 	wg.Wait()
